@@ -96,6 +96,15 @@ func c04Merge(r *rand.Rand, a, b map[string]any, app bool) Case {
 	} else {
 		A, B = dom.Builder().FromMap(deepCopy(a).(map[string]any)), anyToContainer(b)
 	}
+	// ... or decoded from a value in which ONE map object stands at two places (a config section reused by reference): both
+	// places are sections like any other, merged member by member
+	if r != nil && r.Intn(6) == 0 {
+		shared := map[string]any{"k": 1, "deep": map[string]any{"x": 1}}
+		a, b = deepCopy(a).(map[string]any), deepCopy(b).(map[string]any)
+		a["s1"], a["s2"] = shared, shared
+		b["s2"] = map[string]any{"extra": 2, "deep": map[string]any{"y": 2}}
+		A, B = dom.Builder().FromMap(a), dom.Builder().FromMap(deepCopy(b).(map[string]any))
+	}
 	// ... or composed of finished parts: every nested mapping and list a Seal()ed read-only view
 	if r != nil {
 		switch r.Intn(6) {
@@ -396,6 +405,14 @@ func init() {
 					docs[0][k], docs[1][k], docs[2][k] = lo, mid, top
 					if r.Intn(2) == 0 {
 						docs = append(docs, map[string]any{k: []any{nil, "again", map[string]any{"z": 0}}[r.Intn(3)]})
+					}
+					if r.Intn(3) == 0 { // five to seven layers, each with its own idea of that member: folded strictly left to right
+						docs = docs[:0]
+						for i, n := 0, 5+r.Intn(3); i < n; i++ {
+							d := deepCopy(a).(map[string]any)
+							d[k] = []any{map[string]any{fmt.Sprintf("m%d", i): i}, "scalar", nil, []any{i}, map[string]any{"shared": i}}[r.Intn(5)]
+							docs = append(docs, d)
+						}
 					}
 				}
 				return c04Overlay(r, docs, r.Intn(2) == 0)
